@@ -187,6 +187,14 @@ def r3_weibull(ctx):
             ctx.check(ok, "C08.R3", mn, rets[0] if rets else mn.node, f"{cname}: nll = -(log-survival + log-hazard)", f"{cname}: nll is `{U(rets[0].value) if rets else '?'}`", instance=cname)
         except NFUnsupported as e:
             ctx.unknown("C08.R3", (DIST, cname), None, f"Weibull code outside the supported subset: {e}", construct=f"{cname} formulas")
+    # the time entering the density is exactly t - tau: "close to the reference time" is not "at the reference time" (a tolerance relative to an
+    # age of 60-90 years is hours to days: those individuals would get the barrier penalty / lose their survival term)
+    from ..astq import canon_lines as _cl
+    re_ = ix.func(DIST, "AbstractWeibullRightCensoredFamily._extract_reparametrized_event", "C08.R3")
+    rt_ = "; ".join(_cl(re_.node, True, True))
+    ctx.form("C08.R3", re_, re_.node, rt_, {"return $0 - $1", "return torch.sub($0, $1)", "return $0.sub($1)"}, ["$0", "$1"], "reparametrised event time = event time - tau, exactly",
+             "the reparametrised event time is no longer exactly `event_time - tau`", forbidden=[r"isclose\(", r"allclose\(", r"masked_fill\(", r"torch\.where\(", r"\.round\(", r"torch\.round\(", r"clamp"],
+             construct="reparametrised event time")
     om = ix.func("leaspy.models.obs_models._weibull", "AbstractWeibullRightCensoredObservationModel.getter", "C08.R3")
     ctx.check("WeightedTensor(dataset.event_time, dataset.event_bool)" in U(om.node), "C08.R3", om, om.node, "event variable = (event time, censoring indicator as weight)",
               "the event variable no longer carries the censoring indicator as its weight", construct="event getter")
